@@ -148,9 +148,10 @@ func vhSymView(n, nadv, neps, focus int) *vhView {
 			var ep discovery.Endpoint
 			serves := true
 			if vr.Bool() {
-				r, s := vr.Bool(), vr.Bool()
+				r, s, t := vr.Bool(), vr.Bool(), vr.Bool()
 				ep.Conditions.Ready = &r
 				ep.Conditions.Serving = &s
+				ep.Conditions.Terminating = &t // never matters: a terminating endpoint that serves still counts
 				serves = vr.Or(r, s)
 			}
 			ep.Addresses = []string{"10.1.0.1"}
